@@ -14,7 +14,8 @@
 (***************************************************************************)
 EXTENDS Naturals, Sequences, FiniteSets, TLC
 
-CONSTANTS MaxOps, NLev          \* NLev: levels of the generated inputs
+CONSTANTS MaxOps, NLev,         \* NLev: levels of the generated inputs
+          WithK                 \* TRUE: a plotfile written by chk2plt ("K", on the checkpoint's own mesh) is among the inputs
 
 VARIABLES disk, hist, busy
 vvars == <<disk, hist, busy>>
@@ -22,14 +23,16 @@ vvars == <<disk, hist, busy>>
 Rng(s) == {s[i] : i \in DOMAIN s}
 PosIn(s, x) == IF \E i \in DOMAIN s : s[i] = x THEN CHOOSE i \in DOMAIN s : s[i] = x ELSE 0
 Absent == [k |-> "absent"]
-Plt(fields, terms, nlev, style) == [k |-> "plt", fields |-> fields, terms |-> terms, nlev |-> nlev, style |-> style]
-Dirs == {"A", "B", "d1", "d2", "d3", "d4"}
+Plt(fields, terms, nlev, style) == [k |-> "plt", fields |-> fields, terms |-> terms, nlev |-> nlev, style |-> style, mesh |-> "m"]
+Dirs == {"A", "B", "K", "d1", "d2", "d3", "d4"}
+KFields == <<"x_velocity", "y_velocity", "z_velocity", "density", "Y(H2)", "Y(O2)", "rhoh", "temp", "RhoRT">>
 NewDir(n) == IF n = 1 THEN "d1" ELSE IF n = 2 THEN "d2" ELSE IF n = 3 THEN "d3" ELSE "d4"
 
 Init ==
   /\ disk = [d \in Dirs |->
                IF d = "A" THEN Plt(<<"a", "b">>, <<<<"src", "A", 1>>, <<"src", "A", 2>>>>, NLev, "amrex")
                ELSE IF d = "B" THEN Plt(<<"c", "d">>, <<<<"src", "B", 1>>, <<"src", "B", 2>>>>, NLev, "amrex")
+               ELSE IF d = "K" /\ WithK THEN [Plt(KFields, [i \in DOMAIN KFields |-> <<"src", "K", i>>], NLev, "chk2plt") EXCEPT !.mesh = "mk"]
                ELSE Absent]
   /\ hist = <<>> /\ busy = FALSE
 
@@ -37,20 +40,20 @@ Init ==
 (* The pure operations (requirement layer) *)
 Strain(x, vars, L) ==
   LET names == IF vars = <<"all">> THEN x.fields ELSE SelectSeq(vars, LAMBDA v : v \in Rng(x.fields))
-  IN Plt(names, [i \in DOMAIN names |-> x.terms[PosIn(x.fields, names[i])]], L + 1,
-         \* colander writes an empty refinement-ratio line when a single level is kept
-         IF L = 0 THEN "blank-ratio" ELSE "kitchen")
+  IN [Plt(names, [i \in DOMAIN names |-> x.terms[PosIn(x.fields, names[i])]], L + 1,
+          \* colander writes an empty refinement-ratio line when a single level is kept
+          IF L = 0 THEN "blank-ratio" ELSE "kitchen") EXCEPT !.mesh = x.mesh]
 
 Combine(x, y) ==
   LET f2 == SelectSeq(y.fields, LAMBDA v : v \notin Rng(x.fields))
-  IN IF x.nlev # y.nlev \/ f2 = <<>> THEN Absent
-     ELSE Plt(x.fields \o f2, x.terms \o [i \in DOMAIN f2 |-> y.terms[PosIn(y.fields, f2[i])]], x.nlev, "kitchen")
+  IN IF x.nlev # y.nlev \/ x.mesh # y.mesh \/ f2 = <<>> THEN Absent
+     ELSE [Plt(x.fields \o f2, x.terms \o [i \in DOMAIN f2 |-> y.terms[PosIn(y.fields, f2[i])]], x.nlev, "kitchen") EXCEPT !.mesh = x.mesh]
 
 Cook(x, kept) ==
   LET kn == SelectSeq(kept, LAMBDA v : v \in Rng(x.fields))
-  IN Plt(kn \o <<"new1">>,
-         [i \in DOMAIN kn |-> x.terms[PosIn(x.fields, kn[i])]] \o <<<<"cook", x.terms[1], x.terms[2]>>>>,
-         x.nlev, IF x.nlev = 1 THEN "blank-ratio" ELSE "kitchen")
+  IN [Plt(kn \o <<"new1">>,
+          [i \in DOMAIN kn |-> x.terms[PosIn(x.fields, kn[i])]] \o <<<<"cook", x.terms[1], x.terms[2]>>>>,
+          x.nlev, IF x.nlev = 1 THEN "blank-ratio" ELSE "kitchen") EXCEPT !.mesh = x.mesh]
 
 -----------------------------------------------------------------------------
 (* Tool invocations: each writes a fresh directory *)
@@ -59,7 +62,9 @@ Target == NewDir(Len(hist) + 1)
 
 VarChoices(x) == {<<"all">>, <<x.fields[1]>>} \cup
                  (IF Len(x.fields) >= 2 THEN {<<x.fields[Len(x.fields)], x.fields[1]>>} ELSE {})
-KeptChoices(x) == {<<>>, <<x.fields[1]>>, SelectSeq(x.fields, LAMBDA v : v # "new1")}
+\* keeping a field that already carries the recipe's output name would write two fields of the same name: a user
+\* error, outside the statement (the tool does not refuse it; see AllValidInputs)
+KeptChoices(x) == {<<>>, SelectSeq(<<x.fields[1]>>, LAMBDA v : v # "new1"), SelectSeq(x.fields, LAMBDA v : v # "new1")}
 
 InvokeColander(s, vars, L) ==
   /\ Len(hist) < MaxOps /\ s \in Present /\ vars \in VarChoices(disk[s]) /\ L \in {0, disk[s].nlev - 1}
@@ -99,7 +104,7 @@ NothingOverwritten == [][\A d \in Dirs : disk[d] # Absent => disk'[d] = disk[d]]
 \* lemmas of the statement
 StrainAllIsIdentity == \A d \in Present :
    LET y == Strain(disk[d], <<"all">>, disk[d].nlev - 1)
-   IN y.fields = disk[d].fields /\ y.terms = disk[d].terms /\ y.nlev = disk[d].nlev
+   IN y.fields = disk[d].fields /\ y.terms = disk[d].terms /\ y.nlev = disk[d].nlev /\ y.mesh = disk[d].mesh
 CookThenCombineAddsOneField == \A d \in Present : Len(disk[d].fields) >= 2 /\ "new1" \notin Rng(disk[d].fields) =>
    LET z == Combine(disk[d], Cook(disk[d], <<>>))
    IN z.fields = disk[d].fields \o <<"new1">> /\ z.terms = disk[d].terms \o <<<<"cook", disk[d].terms[1], disk[d].terms[2]>>>>
